@@ -247,3 +247,81 @@ def statistics_collect(c):
 
 
 api.BY_NAME["Statistics._collect_step"] = collect_step_abstract
+
+
+# ------------------------------------------------------------------------------ Statistics.__iadd__, per-read-end half
+from pyvc.api import MapT
+schema("AdapterStatsObj")
+MERGED = z3.Function("MERGED_ADAPTER_STATS", I, I, I)
+EndsT = ObjT("Statistics", total_bp=FixedListT(Int, 2), with_adapters=PAIR, quality_trimmed_bp=PAIR,
+             poly_a_trimmed_lengths=FixedListT(OptT(MapT(Int)), 2), adapter_stats=FixedListT(SeqT(ObjT("AdapterStatsObj")), 2))
+_install_prev2 = install
+
+
+def install(world):
+    _install_prev2(world)
+    world.handlers[("AdapterStatsObj", "__iadd__")] = lambda ex, st, o, a, k, n, s: ObjV(
+        "AdapterStatsObj", {"__id__": MERGED(o.fields["__id__"], a[0].fields["__id__"])})
+
+
+def ends_spec(cx):
+    collect_spec(cx)
+    t_ = z3.Int("t!es")
+
+    def opt_sum(new, a, b):
+        """Optional[int]: None only if both are None, otherwise the sum with None counting as 0"""
+        return z3.And(new.none == z3.And(a.none, b.none),
+                      z3.Implies(z3.Not(new.none), new.val == z3.If(a.none, 0, a.val) + z3.If(b.none, 0, b.val)))
+
+    def hist_sum(new, a, b):
+        """Optional histogram: the other one if one is None, the point-wise sum otherwise"""
+        k = z3.Int("k!hs")
+        both = z3.And(z3.Not(a.none), z3.Not(b.none))
+        return z3.And(new.none == z3.And(a.none, b.none),
+                      z3.Implies(z3.And(z3.Not(a.none), b.none), new.val.arr == a.val.arr),
+                      z3.Implies(z3.And(a.none, z3.Not(b.none)), new.val.arr == b.val.arr),
+                      z3.Implies(both, z3.ForAll([k], new.val.arr[k] == a.val.arr[k] + b.val.arr[k])))
+
+    def stats_merged_upto(new, a, b, upto):
+        """elements below `upto` are merged pairwise, the others are still those of `a`; same length"""
+        return z3.And(new.n == a.n, z3.ForAll([t_], z3.Implies(z3.And(0 <= t_, t_ < a.n), new.arr[t_] == z3.If(
+            t_ < upto, MERGED(a.arr[t_], b.arr[t_]), a.arr[t_]))))
+
+    def stats_merged(new, a, b):
+        """both non-empty: pairwise merge; only the other one non-empty: taken over; otherwise unchanged"""
+        return z3.And(z3.Implies(z3.And(a.n > 0, b.n > 0), stats_merged_upto(new, a, b, a.n)),
+                      z3.Implies(z3.And(a.n == 0, b.n > 0), z3.And(new.n == b.n, new.arr == b.arr)),
+                      z3.Implies(b.n == 0, z3.And(new.n == a.n, new.arr == a.arr)))
+
+    cx.spec.update(opt_sum=opt_sum, hist_sum=hist_sum, stats_merged_upto=stats_merged_upto, stats_merged=stats_merged,
+                   same_seq=lambda x, y: z3.And(x.n == y.n, x.arr == y.arr))
+
+
+@contract("report.py", "Statistics.__iadd__", props=["C06", "C20"], name="Statistics.__iadd__:per_read_end")
+def statistics_iadd_ends(c):
+    """Second half of the merge: for R1 and R2 separately, base totals, reads with adapters and quality-trimmed bases add up
+    (None = not collected), poly-A histograms add point-wise, per-adapter statistics are merged adapter by adapter."""
+    c.body_from = "for i in (0, 1)"
+    c.body_until = "return self"
+    c.types(self=EndsT, other=EndsT)
+    c.modifies = ["self"]
+    c.spec(ends_spec)
+    c.raises("ValueError", when=None)
+    c.requires(counts_not_negative="True")
+    c.loop(2, head="for j in range(len(self.adapter_stats[i]))", inv=[
+        "0 <= j_next <= len(self.adapter_stats[i]) and len(other.adapter_stats[i]) == len(old(self.adapter_stats)[i]) and len(old(self.adapter_stats)[i]) > 0",
+        "stats_merged_upto(self.adapter_stats[i], old(self.adapter_stats)[i], other.adapter_stats[i], j_next)",
+        "implies(i == 0, same_seq(self.adapter_stats[1], old(self.adapter_stats)[1]))",
+        "implies(i == 1, stats_merged(self.adapter_stats[0], old(self.adapter_stats)[0], other.adapter_stats[0]))",
+    ])
+    ens = {}
+    for k in (0, 1):
+        ens[f"read_{k + 1}_base_totals_add_up"] = f"self.total_bp[{k}] == old(self.total_bp)[{k}] + other.total_bp[{k}]"
+        ens[f"read_{k + 1}_reads_with_adapters_and_quality_trimmed_bases_add_up"] = (
+            f"opt_sum(self.with_adapters[{k}], old(self.with_adapters)[{k}], other.with_adapters[{k}]) and "
+            f"opt_sum(self.quality_trimmed_bp[{k}], old(self.quality_trimmed_bp)[{k}], other.quality_trimmed_bp[{k}])")
+        ens[f"read_{k + 1}_poly_a_histograms_add_pointwise"] = f"hist_sum(self.poly_a_trimmed_lengths[{k}], old(self.poly_a_trimmed_lengths)[{k}], other.poly_a_trimmed_lengths[{k}])"
+        ens[f"read_{k + 1}_adapter_statistics_merged_adapter_by_adapter"] = f"stats_merged(self.adapter_stats[{k}], old(self.adapter_stats)[{k}], other.adapter_stats[{k}])"
+    c.ensures(**ens)
+    c.mutant("self.total_bp[i] += other.total_bp[i]", "self.total_bp[i] += other.total_bp[0]")
+    c.mutant("self.adapter_stats[i][j] += other.adapter_stats[i][j]", "self.adapter_stats[i][j] += other.adapter_stats[i][0]")
